@@ -115,6 +115,10 @@ type RunCfg struct {
 	CloseOnReturn bool
 	// CloseOnSuccess additionally closes the side's connection when it returns nil.
 	CloseOnSuccess bool
+	// RecvCloseDelay postpones the closing of the receiving side's connection after its
+	// endpoint returned (an application that tears down its UI, flushes logs, ... before it
+	// exits): the peer first sees the streams end, the connection only later.
+	RecvCloseDelay time.Duration
 }
 
 // RunResult is the outcome of a run.
@@ -206,7 +210,11 @@ func Run(cfg RunCfg) RunResult {
 		res.RecvErr, res.RecvReturned, res.RecvDur = err, true, time.Since(start)
 		mu.Unlock()
 		if cfg.CloseOnReturn && (err != nil || cfg.CloseOnSuccess) {
-			cfg.Pair.Recv.Close()
+			if cfg.RecvCloseDelay > 0 {
+				time.AfterFunc(cfg.RecvCloseDelay, func() { cfg.Pair.Recv.Close() })
+			} else {
+				cfg.Pair.Recv.Close()
+			}
 		}
 	}()
 	tick := time.NewTicker(50 * time.Millisecond)
